@@ -1,4 +1,5 @@
 import MitmVerif.Model.C42_Print
+import MitmVerif.Model.C42_Body
 import Driver.Proto
 open MitmVerif Driver
 
@@ -181,6 +182,18 @@ def step (line : String) : String :=
     | some (e, []) =>
       hexOfStr e.render ++ " " ++ (if decide e.WF then "1" else "0") ++ " " ++ shape e.ast
     | _ => "bad-op"
+  | ["bd", raw, ce, dec] =>
+    -- what a body operator searches in a message: raw ("none" | hex), Content-Encoding ("none" | hex of the value),
+    -- outcome of the content decoder on (coding, raw) ("fail" | hex)
+    let rawO : Option (Option Bytes) := if raw == "none" then some none else (hexOr raw).map some
+    let ceO : Option (Option Str) := if ce == "none" then some none else (strOfHex ce).map some
+    let decO : Option (Option Bytes) := if dec == "fail" then some none else (hexOr dec).map some
+    match rawO, ceO, decO with
+    | some r, some c, some d =>
+      match searched (fun _ _ => d) ⟨r, c⟩ with
+      | some b => showBytes b
+      | none => "none"
+    | _, _, _ => "bad-op"
   | "pr" :: ts =>
     match pT ts with
     | some (t, []) => hexOfStr (print t)
